@@ -113,43 +113,44 @@ def sym_groups(tier, seed):
         for sz in (4, 8):
             calls = []
             if (isa, sz) == full_cfg:
-                shapes = all_shapes(4, 4) if not quick else [s for s in all_shapes(4, 4) if len(s) < 4 or max(s) <= 3 or rng.random() < 0.25]
+                every = all_shapes(4, 4)
+                shapes = every if not quick else [s for s in every if len(s) < 4 or max(s) <= 2] + rng.sample([s for s in every if len(s) == 4 and max(s) > 2], 30)
                 for s in shapes:
                     calls.append(layout_call(sz, "tocm", "t", s)); calls.append(layout_call(sz, "torm", "t", s))
-                extra = rng.sample(shapes, 40 if quick else 200)
-                for s in extra:
+                for s in rng.sample(shapes, 30 if quick else 200):
                     calls.append(layout_call(sz, rng.choice(["rtcr", "rtrc"]), "t", s))
-                for s in rng.sample(shapes, 30 if quick else 150):
+                for s in rng.sample(shapes, 15 if quick else 150):
                     calls.append(layout_call(sz, rng.choice(["ptrcm", "arrcm", "veccm"]), "m", s))
                     calls.append(layout_call(sz, rng.choice(["ptrrm", "arrrm", "vecrm"]), "m", s))
-                for s in rng.sample(shapes, 16 if quick else 80):
+                for s in rng.sample(shapes, 12 if quick else 80):
                     calls.append(layout_call(sz, rng.choice(["tocm", "torm", "rtcr", "rtrc"]), "m", s))
                 for _ in range(4 if quick else 24):
                     s = tuple(rng.randint(1, 3) for _ in range(5))
                     calls.append(layout_call(sz, "tocm", "t", s)); calls.append(layout_call(sz, "torm", "t", s))
-                    calls.append(layout_call(sz, rng.choice(["rtcr", "rtrc", "ptrcm"]), rng.choice("tm") if False else "m", s))
+                    calls.append(layout_call(sz, rng.choice(["rtcr", "rtrc", "ptrcm"]), "m", s))
                 calls += [layout_call(sz, "tocm", "t", (2, 3, 2, 2, 2, 2)), layout_call(sz, "torm", "t", (3, 1, 2, 2, 1, 3))]
-                for s in rng.sample([x for x in shapes if prod(x) <= 64], 20 if quick else 100):
+                for s in rng.sample([x for x in shapes if prod(x) <= 64], 14 if quick else 100):
                     calls.append(ilist_call(sz, s))
+                for ch in symrun.chunk(calls, 70):
+                    groups.append({"key": "%s/sz%d/layout" % (isa, sz), "header": "map_sym.h", "isa": isa, "calls": ch})
+                calls = []
             else:
-                shapes = rng.sample(all_shapes(4, 4), 6 if quick else 30) + [(rng.randint(1, 3),) * 0 + tuple(rng.randint(2, 5) for _ in range(rng.randint(2, 4)))]
+                shapes = rng.sample(all_shapes(4, 4), 5 if quick else 30) + [tuple(rng.randint(2, 5) for _ in range(rng.randint(2, 4)))]
                 for s in shapes:
                     calls.append(layout_call(sz, rng.choice(["tocm", "torm"]), rng.choice("tm"), s))
                     calls.append(layout_call(sz, rng.choice(["rtcr", "rtrc", "ptrcm", "arrcm", "veccm", "ptrrm"]), "m", s))
                 for n in (1, lanes(isa, sz) + 1, 2 * lanes(isa, sz) + 3):     # rank 1 through a map: the copy is a vector loop
                     calls.append(layout_call(sz, rng.choice(["tocm", "torm"]), "m", (n,)))
                 calls.append(ilist_call(sz, rng.choice([s for s in all_shapes(4, 3) if prod(s) <= 40])))
-            groups.append({"key": "%s/sz%d/layout" % (isa, sz), "header": "map_sym.h", "isa": isa, "calls": calls})
-            # ---- operation sequences through maps and sources
-            calls = []
-            ncase = (14 if isa != "scalar" else 5) if quick else 60
+            # ---- operation sequences through maps and sources (same translation units as the layout sample)
+            ncase = (8 if isa != "scalar" else 4) if quick else 60
             for (kind, mis, sd, md) in map_cases(rng, isa, sz, ncase, 40 if quick else 72):
                 ids = sorted(rng.sample(range(NEXPR), 2) if quick else rng.sample(range(NEXPR), 3))
                 if not (set(ids) & READS_X): ids[0] = rng.choice(sorted(READS_X - set(ids)))
                 ids = sorted(set(ids))
-                for _ in range(2 if quick else 4):
+                for _ in range(4):
                     calls.append(mapops_call(sz, kind, mis, ids, sd, md, gen_ops(rng, sd, md, rng.randint(1, 6), ids)))
-            groups.append({"key": "%s/sz%d/mapops" % (isa, sz), "header": "map_sym.h", "isa": isa, "calls": calls})
+            groups.append({"key": "%s/sz%d" % (isa, sz), "header": "map_sym.h", "isa": isa, "calls": calls})
     return groups
 
 def rnested(dims, k0=1):
@@ -170,14 +171,16 @@ def real_groups(tier, seed):
             V = lanes(isa, 4 if t in ("float", "int32_t") else 8)
             calls = []
             sizes = sorted(set([V - 1 or 1, V, V + 1, 2 * V + 1, 3 * V, rng.randint(1, 3 * V)]))
-            for n in (rng.sample(sizes, 3) if quick else sizes):
+            for n in (rng.sample(sizes, 2) if quick else sizes):
                 s = rng.choice(factorisations(n))
                 calls.append("run_rmap<%s,%s>(%du);" % (t, ",".join(map(str, s)), seed * 31 + n))
-            shapes = rng.sample([s for s in all_shapes(4, 4) if prod(s) <= 96], 3 if quick else 25)
+            shapes = rng.sample([s for s in all_shapes(4, 4) if prod(s) <= 96], 2 if quick else 25)
             for s in shapes:
                 ds = ",".join(map(str, s))
                 calls.append("run_rctor<%s,%s>(0u);" % (t, ds))
                 calls.append("run_rilist<%s,%s>([]{ return Tensor<%s,%s>%s; });" % (t, ds, t, ds, rnested(list(s))[0]))
+            for n in (rng.sample([2, 3, 4, 5, 8], 1) if quick else [2, 3, 4, 5, 7, 8]):
+                calls.append("run_rstaged<%s,%d>(%du);" % (t, n, seed * 17 + n))
             groups.append({"key": "%s/%s" % (isa, t), "header": "map_real.h", "isa": isa, "opt": "-O2", "calls": calls,
                            "pre": "static bool g_verbose=false;"})
     return groups
@@ -199,7 +202,7 @@ def run(tier, seed):
         rule="layout: every shape of rank 1-4 with extents <= 4 (quick: rank 4 restricted to extents <= 3 plus a 25% sample) x {tocolumnmajor, torowmajor} + sampled "
              "round trips / constructors / map sources / nested initializer lists / seeded rank 5-6; mapops: seeded (kind, source shape, map shape of equal size, "
              "operation sequence of length 1-6 alternating between the names) per (ISA, element size); non-trivial = rank >= 2 resp. at least two operations",
-        nontrivial=nontrivial, per_tu=24)
+        nontrivial=nontrivial, per_tu=70)
 
 def sym_call_of(inp):
     d = symrun.kv(inp)
